@@ -1505,7 +1505,7 @@ def d5_17(ctx):
         if (kind, bytes(res) if isinstance(res, (bytes, bytearray)) else res) != want:
             diffs.append(f"gives {kind} {res!r} (expected {want[0]} {want[1]!r})")
         pos = 0
-        for i, k in enumerate(seen):
+        for i, k in enumerate(seen[:len(chunks)]):
             want_data = _st.pack("<i", pos) + _st.pack("<H", total - pos)
             if k.get("request_data") != want_data or k.get("service") != ev("Services.read_tag") or k.get("class_code") != ev("ClassCode.template_object") or k.get("instance") != 0x123 or k.get("return_response_packet") is not True:
                 diffs.append(f"request {i} asks {k.get('request_data')!r} of instance {k.get('instance')!r} (expected offset {pos}, {total - pos} bytes left: {want_data!r})")
